@@ -151,7 +151,7 @@ def main():
         tot, levels, samples, st, len(items),
         "program = (topology, SX|MX, compactness level) compiled with more_out=True and all parameters declared symbolic; one query per reported link-flow entry, "
         "per queued origin (queue update from the reported flow) and per origin (density balance of the fed link from reported flows)",
-        {"bounds": {"family": "K (18 curated) x {SX,MX} x levels" + (" (all) + E(3,4) + R(seed,30)" if args.thorough else " (level 0 always, 1/2 alternating)")},
+        {"bounds": {"family": "K (20 curated) x {SX,MX} x levels" + (" (all) + E(3,4) + R(seed,30)" if args.thorough else " (level 0 always, 1/2 alternating)")},
          "functions_encoded": ["Engine.to_function(more_out=True) / _add_flows_to_outputs IR", "Link.get_flow, *.get_flow of all origin kinds (re-invoked with forwarded parameters)"]})
     assumptions = ["exact real arithmetic", "lanes numeric on the CasADi side when phi is given", "layout of the extra outputs as documented (links then origins; 'q','q_o'; stacked 'q')"]
     harness.finish(args, "translation_validation", cov, assumptions, viol, inc, t0)
